@@ -368,7 +368,8 @@ Returns:
     print(0, file=outfile)
     print(len(myattrs), file=outfile)
     for key in myattrs:
-        print('%s: %s' % (key, getattr(f, key, '')), file=outfile)
+        val = str(getattr(f, key, '')).replace('\n', ' ').replace('\r', ' ')
+        print('%s: %s' % (key, val), file=outfile)
 
     vals = [filled(f.variables[f.INDEPENDENT_VARIABLE][:]).ravel()]
     keys = [f.INDEPENDENT_VARIABLE]
